@@ -428,3 +428,194 @@ func fieldsTouched(c *Ctx, fn *ssa.Function, tn string, write bool, d int, seen 
 	}
 	return out
 }
+
+// ruleDeclaredLengthLoops (C18, "lengths declared inside a message are honoured"): a decoder
+// loop that consumes a buffer to its end must run over exactly the bytes a declared length
+// covers. For every loop of a decoder that (a) shrinks a []byte it carries (`data = data[n:]`
+// until empty) or (b) advances an offset to the end of a buffer, and that is preceded by the
+// read of a length field, the number of bytes the loop will consume on entry must be provably
+// equal to one of the length fields read before the loop. Otherwise a vector whose declared
+// length is shorter than what follows is silently extended over the following bytes.
+func ruleDeclaredLengthLoops(c *Ctx, r *Report) {
+	const rule = "declared-length-loop"
+	c.boundsInit()
+	n := 0
+	for _, fn := range c.Fns {
+		if !isDecoderFn(fn) {
+			continue
+		}
+		decl := declaredLengths(fn)
+		if len(decl) == 0 {
+			continue
+		}
+		a := getAn(fn)
+		for li, l := range naturalLoops(fn) {
+			var remaining lin
+			what := ""
+			var entry *ssa.BasicBlock
+			for _, in := range l.header.Instrs {
+				phi, ok := in.(*ssa.Phi)
+				if !ok {
+					break
+				}
+				// (a) a carried []byte that is re-sliced from itself on the back edge
+				if isByteSlice(phi.Type()) {
+					consumed := false
+					var init ssa.Value
+					for i, p := range l.header.Preds {
+						if l.blocks[p] {
+							if slicedFrom(phi.Edges[i], phi, 0) {
+								consumed = true
+							}
+						} else {
+							init, entry = phi.Edges[i], p
+						}
+					}
+					if consumed && init != nil && loopRunsToEmpty(l, phi) {
+						remaining = a.lenOf(init, 0)
+						what = "remaining input " + shapeOf(init, 0)
+					}
+				}
+			}
+			if what == "" {
+				// (b) an offset advanced to the end of a loop-invariant buffer
+				for _, b := range []*ssa.BasicBlock{l.header} {
+					iff, ok := b.Instrs[len(b.Instrs)-1].(*ssa.If)
+					if !ok {
+						continue
+					}
+					bo, ok := iff.Cond.(*ssa.BinOp)
+					if !ok {
+						continue
+					}
+					for _, pr := range [][2]ssa.Value{{bo.X, bo.Y}, {bo.Y, bo.X}} {
+						phi, isPhi := stripConv(pr[0]).(*ssa.Phi)
+						call, isLen := pr[1].(*ssa.Call)
+						if !isPhi || !isLen || phi.Block() != l.header || calleeName(&call.Call) != "builtin:len" || !isByteSlice(call.Call.Args[0].Type()) || !l.invariant(call.Call.Args[0], 0) {
+							continue
+						}
+						for i, p := range l.header.Preds {
+							if !l.blocks[p] {
+								remaining = a.lenOf(call.Call.Args[0], 0).add(a.linOf(phi.Edges[i], 0), -1)
+								what = "len(" + shapeOf(call.Call.Args[0], 0) + ") - start offset"
+								entry = p
+							}
+						}
+					}
+				}
+			}
+			if what == "" {
+				// (c) `for ... := range tail` over an open-ended tail slice data[k:]
+				if iff, ok := l.header.Instrs[len(l.header.Instrs)-1].(*ssa.If); ok {
+					if bo, ok := iff.Cond.(*ssa.BinOp); ok && bo.Op == token.LSS {
+						if call, isLen := bo.Y.(*ssa.Call); isLen && calleeName(&call.Call) == "builtin:len" {
+							if sl, isSl := call.Call.Args[0].(*ssa.Slice); isSl && sl.High == nil && isByteSlice(sl.Type()) && !l.blocks[sl.Block()] {
+								for _, p := range l.header.Preds {
+									if !l.blocks[p] {
+										remaining = a.lenOf(sl, 0)
+										what = "range over the tail " + shapeOf(sl, 0)
+										entry = p
+									}
+								}
+							}
+						}
+					}
+				}
+			}
+			if what == "" || !remaining.ok || entry == nil {
+				continue
+			}
+			// length fields read before the loop
+			var cands []ssa.Value
+			for _, d := range decl {
+				if in, ok := d.(ssa.Instruction); ok && in.Block() != l.header && in.Block().Dominates(l.header) && !l.blocks[in.Block()] {
+					cands = append(cands, d)
+				}
+			}
+			if len(cands) == 0 {
+				continue
+			}
+			n++
+			r.Sites++
+			facts := append([]cons{}, a.blockFacts(entry)...)
+			if iff, ok := entry.Instrs[len(entry.Instrs)-1].(*ssa.If); ok && entry.Succs[0] != entry.Succs[1] {
+				facts = append(facts, a.condFacts(iff.Cond, entry.Succs[0] == l.header)...)
+			}
+			exact := ""
+			for _, d := range cands {
+				dl := a.linOf(d, 0)
+				if a.prove(facts, remaining.add(dl, -1), 0) && a.prove(facts, dl.add(remaining, -1), 0) {
+					exact = shapeOf(d, 0)
+					break
+				}
+			}
+			key := fmt.Sprintf("%s:loop%d", short(fn), li+1)
+			pos := c.ipos(l.header.Instrs[len(l.header.Instrs)-1])
+			if exact != "" {
+				r.OK(rule, key, pos, "the loop consumes exactly the declared length "+exact+" ("+what+")")
+				continue
+			}
+			if rs, ok := otherReviewed(c, rule, short(fn), fmt.Sprint(li+1)); ok {
+				r.OKTrivial(rule, key, pos, "reviewed: "+rs)
+				continue
+			}
+			r.Bad(rule, key, pos, "a decoder loop runs to the end of its buffer although a length field was read before it and the bytes it will consume ("+what+") are not established to equal any such field: a vector with a shorter declared length is extended over the bytes that follow it")
+		}
+	}
+	r.Floor(rule, n, 5)
+}
+
+// slicedFrom: v is obtained from root only by re-slicing.
+func slicedFrom(v, root ssa.Value, d int) bool {
+	if d > 6 {
+		return false
+	}
+	if v == root {
+		return d > 0
+	}
+	switch x := v.(type) {
+	case *ssa.Slice:
+		return x.X == root || slicedFrom(x.X, root, d+1)
+	case *ssa.Phi:
+		if x == root {
+			return d > 0
+		}
+		all := len(x.Edges) > 0
+		any := false
+		for _, e := range x.Edges {
+			if e == ssa.Value(x) {
+				continue
+			}
+			if e == root {
+				continue
+			}
+			if slicedFrom(e, root, d+1) {
+				any = true
+			} else {
+				all = false
+			}
+		}
+		return all && any
+	}
+	return false
+}
+
+// loopRunsToEmpty: the loop is left (normally) when len(phi) reaches zero.
+func loopRunsToEmpty(l *natLoop, phi *ssa.Phi) bool {
+	iff, ok := l.header.Instrs[len(l.header.Instrs)-1].(*ssa.If)
+	if !ok {
+		return false
+	}
+	bo, ok := iff.Cond.(*ssa.BinOp)
+	if !ok {
+		return false
+	}
+	for _, pr := range [][2]ssa.Value{{bo.X, bo.Y}, {bo.Y, bo.X}} {
+		call, isLen := pr[0].(*ssa.Call)
+		k, isC := constInt(pr[1])
+		if isLen && isC && k == 0 && calleeName(&call.Call) == "builtin:len" && call.Call.Args[0] == ssa.Value(phi) {
+			return true
+		}
+	}
+	return false
+}
